@@ -16,6 +16,10 @@ MAC_NEW = bytes.fromhex("02dddddddddd")
 
 
 def frame (port, size, tag):
+  if port == 3:
+    # an IPv4/UDP frame: the flow on port 3 rewrites payload-level fields AFTER its output:CONTROLLER action
+    from mc.props.c11 import udp_frame
+    return udp_frame(bytes.fromhex("02000000bb03"), bytes.fromhex("02000000aa03"), tag=tag, size=size - 42)
   f = bytes.fromhex("02000000aa%02x" % port) + bytes.fromhex("02000000bb%02x" % port) + b"\x88\xb5"
   body = bytes([tag, port]) + bytes((i * 7 + tag) & 0xff for i in range(size - 16))
   return f + body
@@ -29,13 +33,15 @@ class World (object):
     self.xid = 100
     self.miss_len = 128
     self.out = {}               # model: outstanding id -> (frame bytes, in_port)
+    self.ftag = {}              # frame bytes -> the tag it was built with
     self.last_used = None
     self.bad = []
     # flows sending to the controller
     setup = [
       W.flow_mod(1, W.match_fields(in_port=2), W.OFPFC_ADD, W.a_output(W.OFPP_CONTROLLER, 64)),
       W.flow_mod(2, W.match_fields(in_port=3), W.OFPFC_ADD,
-                 W.a_output(W.OFPP_CONTROLLER, 0) + W.a_set_dl_dst(MAC_NEW) + W.a_output(TARGET)),
+                 W.a_output(W.OFPP_CONTROLLER, 0) + W.a_set_dl_dst(MAC_NEW) + W.a_set_nw_tos(0x20) + W.a_set_tp_dst(99)
+                 + W.a_output(TARGET)),
       W.flow_mod(3, W.match_fields(in_port=4), W.OFPFC_ADD, W.a_output(W.OFPP_CONTROLLER, 0xffff)),
       W.features_request(4),
     ]
@@ -52,7 +58,7 @@ class World (object):
     self.xid += 1; return self.xid
 
   def free_tag (self):
-    used = set(f[0][14] for f in self.out.values())
+    used = set(self.ftag[f[0]] for f in self.out.values())
     t = 0
     while t in used: t += 1
     return t
@@ -70,6 +76,8 @@ class World (object):
       # release a live buffer through FLOOD (the stored ingress port must be excluded) and through
       # output:CONTROLLER (the release itself buffers the packet again while the old slot is still held)
       o.append(("poutf", k)); o.append(("poutc", k))
+      # MODIFY / MODIFY_STRICT carrying a buffer: applies to the packet whether it modified an entry or acted as ADD
+      o.append(("fmodm", k)); o.append(("fmods", k))
     for v in (0, 64, 128, 0xffff):
       if v != self.miss_len: o.append(("cfg", v))
     return o
@@ -85,7 +93,8 @@ class World (object):
       return ("cfg",)
     if kind == "rx":
       _, port, size = op
-      f = frame(port, size, self.free_tag())
+      tag = self.free_tag()
+      f = frame(port, size, tag); self.ftag[f] = tag
       st.rx(f, port)
       msgs, rest = W.split(st.drain())
       ds = [W.decode(m) for m in msgs]
@@ -116,9 +125,9 @@ class World (object):
           self.fail("rx:data-length", "buffered packet-in carries %d bytes (limit %d) / not a prefix of the frame" % (len(p["data"]), limit))
         self.out[bid] = (f, port)
       if port == 3:
-        want = [(TARGET, MAC_NEW + f[6:])]
-        if emitted != want:
-          self.fail("rx:action-list-output", "flow [controller, set_dl_dst, output] emitted %r" % ([(a, b[:8].hex()) for a, b in emitted],))
+        # (the rewritten copy's bytes beyond the destination address are C12's business)
+        if [(a, b[:6], len(b)) for a, b in emitted] != [(TARGET, MAC_NEW, len(f))]:
+          self.fail("rx:action-list-output", "flow [controller, set_dl_dst, set_nw_tos, set_tp_dst, output] emitted %r" % ([(a, b[:8].hex()) for a, b in emitted],))
       elif emitted:
         self.fail("rx:unexpected-emission", "frame sent to the controller was also emitted on %r" % [a for a, b in emitted])
       return ("rx", p["buffer_id"] != W.NO_BUFFER, len(p["data"]))
@@ -171,7 +180,8 @@ class World (object):
     if kind == "pout":
       st.feed(W.packet_out(self.nxid(), W.a_output(TARGET), b"", buffer_id=k, in_port=W.OFPP_NONE))
     else:
-      st.feed(W.flow_mod(self.nxid(), W.match_fields(in_port=TARGET, dl_type=0x9999), W.OFPFC_ADD, W.a_output(TARGET), buffer_id=k))
+      cmd = {"fmod": W.OFPFC_ADD, "fmodm": W.OFPFC_MODIFY, "fmods": W.OFPFC_MODIFY_STRICT}[kind]
+      st.feed(W.flow_mod(self.nxid(), W.match_fields(in_port=TARGET, dl_type=0x9999), cmd, W.a_output(TARGET), buffer_id=k))
     emitted = st.take_out()
     msgs, rest = W.split(st.drain())
     ds = [W.decode(m) for m in msgs]
@@ -223,8 +233,8 @@ def run (cfg):
   pools = cfg.pick([0, 1, 2, 3], [0, 1, 2, 3, 4])
   depth = cfg.pick(6, 8)
   rep.rule = ("breadth-first search over all histories of <=%d operations {frame miss 60/200 B, frame hitting output:CONTROLLER "
-              "flows with max_len 64 / 0 (+rewrite+output) / 0xffff, packet_out(buffer k) and flow_mod(buffer k) for every "
-              "outstanding id, the last used id, 0, pool+1 and 999, set_config(miss_send_len in {0,64,128,0xffff})} for pool sizes %r; "
+              "flows with max_len 64 / 0 (an IPv4/UDP frame; + set_dl_dst, set_nw_tos, set_tp_dst, output) / 0xffff, packet_out(buffer k) and flow_mod ADD (buffer k) for every "
+              "outstanding id, the last used id, 0, pool+1 and 999, release of every outstanding id through FLOOD, output:CONTROLLER, flow_mod MODIFY and MODIFY_STRICT, set_config(miss_send_len in {0,64,128,0xffff})} for pool sizes %r; "
               "canonical state = model + the switch's real buffer slots, config and table size; distinct = (last op, observation)"
               % (depth, pools))
   rep.bound = dict(depth=depth, pools=pools)
